@@ -1,3 +1,247 @@
+//! C06: commands rejected at origin leave no trace.
+use aranya_runtime::{ClientError, Prior, Priority};
+use graphkit::{audit::*, dag::*, driver::*, r#gen::*, model::*, replica::*};
 use vcore::*;
+
 use crate::Mons;
-pub fn case(_cs: u64, _args: &Args, _mons: &mut Mons, _case: &Value) {}
+
+#[derive(Clone, Debug)]
+enum Item {
+    Node(usize),
+    /// Index into `ghosts`.
+    Ghost(usize),
+    /// A command naming ghost g as its parent.
+    GhostChild(usize),
+    Flush,
+    Commit,
+}
+
+struct Ghost {
+    id: Id,
+    parent: usize,
+    script: Script,
+    kind: &'static str,
+}
+
+pub fn case(cs: u64, args: &Args, mons: &mut Mons, case: &Value) {
+    let _ = args;
+    let mut rng = Rng::new(cs);
+    let mut cfg = GenCfg::small(&mut rng);
+    cfg.n = rng.urange(4, 30);
+    let mut model = DagGen::new(cfg, &mut rng).build();
+    let n = model.len();
+    let init = model.node(0).id;
+    let order = linear_extension(&model, &|_| true, *rng.pick(&[Order::Creation, Order::RandomTopo, Order::DepthFirst]), &mut rng);
+
+    // Ghosts: rejected commands hanging off delivered nodes.
+    let ng = rng.urange(1, 3);
+    let mut ghosts = vec![];
+    for g in 0..ng {
+        let parent = order[rng.usize(order.len())];
+        let (script, kind) = if rng.chance(2, 3) {
+            let mut ops = vec![];
+            for j in 0..rng.urange(1, 3) {
+                ops.push(Op::Put { n: rng.below(3) as u8, k: gen_key(&mut rng), v: vec![0xBA, 0xD0, g as u8, j as u8] });
+            }
+            if rng.bool() {
+                ops.push(Op::Del { n: rng.below(3) as u8, k: gen_key(&mut rng) });
+            }
+            let at = rng.urange(1, ops.len());
+            ops.insert(at, Op::Fail);
+            (Script { tag: 0x6000_0000 + g as u32, quiet: false, ops }, "write-then-fail")
+        } else {
+            // a Require that cannot hold: the value is never written by anyone
+            (Script { tag: 0x6000_0000 + g as u32, quiet: false, ops: vec![Op::Require { n: 0, k: gen_key(&mut rng), v: Some(vec![0xDE, 0xAD, g as u8]) }, Op::Put { n: 1, k: gen_key(&mut rng), v: vec![0xBA, 0xD1] }] }, "failing-require")
+        };
+        let mut id = [0u8; 32];
+        rng.fill(&mut id);
+        ghosts.push(Ghost { id, parent, script, kind });
+    }
+
+    // Place items: each ghost somewhere after its parent, with a position class.
+    let mut items: Vec<Item> = vec![];
+    let mut classes = vec![];
+    let mut placed = vec![false; ng];
+    let pos_of = |v: usize| order.iter().position(|&x| x == v).unwrap();
+    let mut ghost_at: Vec<(usize, usize)> = vec![]; // (after order index, ghost)
+    for (g, gh) in ghosts.iter().enumerate() {
+        let p = pos_of(gh.parent);
+        let class = rng.below(3);
+        let after = match class {
+            0 => p,                                         // right after its parent: in-flight perspective
+            1 => rng.urange(p, order.len() - 1),            // later: usually a perspective switch
+            _ => order.len() - 1,                           // at the very end
+        };
+        ghost_at.push((after, g));
+        classes.push(class);
+    }
+    for (i, &v) in order.iter().enumerate() {
+        items.push(Item::Node(v));
+        if rng.chance(1, 8) {
+            items.push(Item::Flush);
+        }
+        for &(after, g) in &ghost_at {
+            if after == i && !placed[g] {
+                placed[g] = true;
+                if rng.chance(1, 4) {
+                    items.push(Item::Flush);
+                }
+                items.push(Item::Ghost(g));
+                if rng.chance(1, 2) {
+                    items.push(Item::GhostChild(g));
+                }
+            }
+        }
+        if rng.chance(1, 12) {
+            items.push(Item::Commit);
+        }
+    }
+    items.push(Item::Commit);
+
+    let mut obs = Obs::default();
+    let mut rep = MemReplica::new_mem(&init);
+    let mut trx = rep.trx();
+    let mut in_trx = Bits::new(n);
+    let mut committed = Bits::new(n);
+    let mut accepted_since_commit = 0usize;
+    let mut ghost_with_earlier_accepted = false;
+    let max_batch = *rng.pick(&[1usize, 3, 8, 100]);
+    let mut i = 0;
+    let wire_of = |model: &Model, it: &Item| -> Option<WireCmd> {
+        match it {
+            Item::Node(v) => Some(wire(&model.dag, *v)),
+            Item::Ghost(g) => {
+                let gh = &ghosts[*g];
+                let p = model.node(gh.parent);
+                Some(WireCmd { id: cmd_id(&gh.id), prio: Priority::Basic(1), parent: Prior::Single(addr(&p.id, p.max_cut)), policy: None, data: gh.script.encode() })
+            }
+            Item::GhostChild(g) => {
+                let gh = &ghosts[*g];
+                let pm = model.node(gh.parent).max_cut + 1;
+                let mut id = gh.id;
+                id[0] ^= 0xff;
+                Some(WireCmd { id: cmd_id(&id), prio: Priority::Basic(1), parent: Prior::Single(addr(&gh.id, pm)), policy: None, data: Script { tag: 0x6100_0000 + *g as u32, quiet: false, ops: vec![] }.encode() })
+            }
+            _ => None,
+        }
+    };
+    'outer: while i < items.len() {
+        match &items[i] {
+            Item::Flush => {
+                if rep.exists() {
+                    if let Err(e) = rep.flush(&mut trx) {
+                        obs.fail("C06", &format!("flush-failed-after-rejection:{}", err_kind(&e)), json!({"err": e.to_string(), "item": i}));
+                        break 'outer;
+                    }
+                }
+                i += 1;
+            }
+            Item::Commit => {
+                let t = std::mem::replace(&mut trx, rep.trx());
+                rep.take_log();
+                match rep.commit(t) {
+                    Ok(_) => {
+                        committed = in_trx.clone();
+                        accepted_since_commit = 0;
+                        if committed.count() > 0 {
+                            check_committed(&mut rep, &mut model, &committed, &json!({"item": i, "what": "commit after rejections"}), true, &mut obs);
+                        }
+                    }
+                    Err(e) => {
+                        obs.fail("C06", &format!("commit-fails-after-rejected-command:{}", err_kind(&e)), json!({"err": e.to_string(), "item": i, "accepted_in_transaction": accepted_since_commit, "items": format!("{:?}", &items[..=i])}));
+                        // committed state must at least be unchanged
+                        if committed.count() > 0 {
+                            check_committed(&mut rep, &mut model, &committed, &json!({"item": i, "what": "after failed commit"}), true, &mut obs);
+                        }
+                        break 'outer;
+                    }
+                }
+                i += 1;
+            }
+            _ => {
+                // a batch of commands
+                let mut j = i;
+                while j < items.len() && j - i < max_batch && !matches!(items[j], Item::Flush | Item::Commit) {
+                    j += 1;
+                }
+                let batch = &items[i..j];
+                let wires: Vec<WireCmd> = batch.iter().filter_map(|it| wire_of(&model, it)).collect();
+                let first_bad = batch.iter().position(|it| !matches!(it, Item::Node(_)));
+                rep.take_log();
+                let res = rep.add(&mut trx, &wires);
+                let log = rep.take_log();
+                match (first_bad, res) {
+                    (None, Ok(_)) => {
+                        for it in batch {
+                            if let Item::Node(v) = it {
+                                in_trx.set(*v);
+                                accepted_since_commit += 1;
+                            }
+                        }
+                        i = j;
+                    }
+                    (Some(b), Err(e)) => {
+                        for it in &batch[..b] {
+                            if let Item::Node(v) = it {
+                                in_trx.set(*v);
+                                accepted_since_commit += 1;
+                            }
+                        }
+                        match (&batch[b], &e) {
+                            (Item::Ghost(g), ClientError::PolicyError(_)) => {
+                                obs.count("rejections_observed", 1);
+                                obs.count(&format!("rejections_{}", ghosts[*g].kind), 1);
+                                obs.count(&format!("rejection_position_class_{}", classes[*g]), 1);
+                                if accepted_since_commit > 0 {
+                                    ghost_with_earlier_accepted = true;
+                                }
+                                // effects rolled back: last block is the ghost's and ends in rollback
+                                let (bl, _) = blocks(&log);
+                                match bl.last() {
+                                    Some(bk) if bk.end == BlockEnd::Rollback && bk.rules.last().is_some_and(|r| r.0 == ghosts[*g].id && r.4.is_err()) => {}
+                                    other => obs.fail("C06", "effects-of-rejected-command-not-rolled-back", json!({"block": format!("{other:?}")})),
+                                }
+                            }
+                            (Item::GhostChild(g), ClientError::NoSuchParent(p)) if *p.as_array() == ghosts[*g].id => {
+                                obs.count("children_of_rejected_refused", 1);
+                            }
+                            (it, e) => {
+                                let extra = if let Item::Ghost(g) = it {
+                                    let pn = model.node(ghosts[*g].parent).clone();
+                                    format!("ids {:?} parent node {} id {} max_cut {} in_trx {} committed {} locate {:?} heads {:?}", (0..model.len()).map(|v| (v, cmd_id(&model.node(v).id).to_string()[..6].to_string(), format!("{:?}", model.node(v).par))).collect::<Vec<_>>(), ghosts[*g].parent, short(&pn.id), pn.max_cut, in_trx.get(ghosts[*g].parent), committed.get(ghosts[*g].parent), rep.locate(&pn.id, pn.max_cut), rep.heads().map(|h| h.iter().map(|x| (short(&x.0), x.1)).collect::<Vec<_>>()))
+                                } else { String::new() };
+                                obs.fail("C06", "wrong-error-for-rejected-command", json!({"item": format!("{it:?}"), "err": e.to_string(), "extra": extra}))
+                            }
+                        }
+                        i += b + 1;
+                    }
+                    (Some(b), Ok(_)) => {
+                        obs.fail("C06", "rejecting-command-was-accepted", json!({"item": format!("{:?}", batch[b])}));
+                        break 'outer;
+                    }
+                    (None, Err(e)) => {
+                        obs.fail("C06", &format!("valid-command-refused-after-rejection:{}", err_kind(&e)), json!({"err": e.to_string(), "batch": format!("{batch:?}")}));
+                        break 'outer;
+                    }
+                }
+            }
+        }
+    }
+    // Rejected commands are not locatable.
+    if rep.exists() {
+        for gh in &ghosts {
+            let mc = model.node(gh.parent).max_cut + 1;
+            if let Ok(Some(_)) = rep.locate(&gh.id, mc) {
+                obs.fail("C06", "rejected-command-is-stored", json!({"kind": gh.kind}));
+            }
+        }
+    }
+    if let Some(m) = mons.get("C06") {
+        m.eval();
+        if ghost_with_earlier_accepted {
+            m.nontrivial(mix2(model.dag.shape_hash(), hash_of(&format!("{items:?}"))));
+        }
+        m.sample(|| json!({"mode": "reject", "case_seed": cs, "commands": n, "ghosts": ghosts.iter().map(|g| json!({"kind": g.kind, "parent": g.parent, "ops": format!("{:?}", g.script.ops)})).collect::<Vec<_>>(), "items": format!("{items:?}"), "max_batch": max_batch}));
+    }
+    mons.take(obs, case);
+}
